@@ -113,6 +113,8 @@ class SimFile:
     def read(self, n=-1):
         self._check()
         self.fs._alive()
+        if self.fs.track_reads:
+            self.fs._revent('read', self.path)
         if n is None or n < 0:
             out = bytes(self.buf[self.pos:])
         else:
